@@ -69,7 +69,7 @@ def check(R):
         # the reservation stamps ONE message: Session::pre_send consumes it (Option::take on the exchange's group_data_ctr) - a second
         # send on the same exchange finds None and is refused instead of going out under the same counter value
         ps_ = R.body('transport::session::Session::pre_send')
-        takes = [t for b_ in [ps_] + list(F.nested(ps_.fn)) for t in b_.calls('core::option::Option::take')
+        takes = [t for b_ in [ps_] + list(F.nested(ps_.fn)) for t in b_.calls('core::option::Option::take') + b_.calls('core::mem::take')
                  if any(f == 'group_data_ctr:transport::exchange::ExchangeState' for f in src_fields(prims.sources(b_, t.d['a'][0])))]
         reads = [b_.fn for b_ in [ps_] + list(F.nested(ps_.fn)) if prims.field_read_locals(b_, 'group_data_ctr:transport::exchange::ExchangeState')
                  or any(st[1].get('op') == 'ref' and any(x == '.group_data_ctr:transport::exchange::ExchangeState' for x in st[1]['pl'][1:] if isinstance(x, str)) for i, j, st in b_.stmts())]
